@@ -525,7 +525,7 @@ fn c07_case(seed: u64, cx: &mut Ctx) -> (Vec<Failure>, bool, u64) {
 /// (`Oracle::with_commit` holds the commit mutex across both).  A write skew on two threads: T1 is held at the
 /// `write.begin` pause point inside its commit (validated, not yet applied); T2's commit must wait for it, and is
 /// then refused.  If T2 gets through, both commit on the same stale observation.
-fn commit_overlap_probe() -> Option<Failure> {
+fn commit_overlap_probe(lean: &mut Lean) -> Option<Failure> {
     use std::sync::atomic::{AtomicBool, Ordering};
     use std::sync::Arc;
     static PARKED: AtomicBool = AtomicBool::new(false);
@@ -559,9 +559,18 @@ fn commit_overlap_probe() -> Option<Failure> {
     let r1 = h1.join().ok()?.ok()?;
     let r2 = h2.join().ok()?.ok()?;
     fjall::verif::pause::set(None);
-    let total = num(ks.get("x").ok()?) + num(ks.get("y").ok()?);
+    let (x, y) = (num(ks.get("x").ok()?), num(ks.get("y").ok()?));
+    let total = x + y;
+    // the same schedule on the thread model of the commit mutex (Tx/CommitMutex.lean, write-skew instance):
+    // T1 locks and validates, T2 tries twice, T1 applies, T2 locks and validates
+    let model = if no_model() { String::new() } else { lean.ask("cm.skew 1 50 50 0,0,1,1,0,1,1,1") };
+    let v = |b: bool| if b { "ok" } else { "conflict" };
+    let real = format!("db={x},{y} verdicts=t1:{},t2:{} mutex=none blocked={} phases=idle,idle", v(r1), v(r2), if overlapped { "" } else { "2,3" });
     if overlapped || (r1 && r2) || total < 0 {
         return Some(Failure { kind: "impl-vs-oracle", detail: format!("optimistic transactions, write skew on two threads: T1 held between its validation and the application of its writes; T2's commit completed meanwhile = {overlapped}; outcomes T1 committed = {r1}, T2 committed = {r2}; x + y = {total} (both read x + y = 100 and withdrew 100: at most one may commit)") });
+    }
+    if !no_model() && model != real {
+        return Some(Failure { kind: "model-vs-impl", detail: format!("commit-mutex thread model vs two real threads (write skew, T1 held after validation): model {model} vs real {real}") });
     }
     None
 }
@@ -620,7 +629,7 @@ fn main() {
     let mut hist = BTreeMap::new();
     let mut cases = 0;
     if mode == "c08" && replay.is_none() { if let Some(f) = single_writer_probe() { all.push((0, f)); } *hist.entry("single-writer-probe".to_string()).or_insert(0) += 1; }
-    if mode == "c07" && replay.is_none() { if let Some(f) = commit_overlap_probe() { all.push((0, f)); } *hist.entry("commit-overlap-probe".to_string()).or_insert(0) += 1; }
+    if mode == "c07" && replay.is_none() { if let Some(f) = commit_overlap_probe(&mut lean) { all.push((0, f)); } *hist.entry("commit-overlap-probe".to_string()).or_insert(0) += 1; }
     for cs in seeds {
         let res = std::panic::catch_unwind(std::panic::AssertUnwindSafe(|| {
             let mut cx = Ctx { lean: &mut lean, hist: &mut hist, samples: &mut samples };
